@@ -70,13 +70,24 @@ def run_case(t, inc):
             path = os.path.join(d, "target.xml")
             ODMLWriter("XML").write_file(target, path)
             url = "file://" + path
+            # another file of the same base name elsewhere, loaded first (its copy sits in the download cache)
+            os.makedirs(os.path.join(d, "decoy"))
+            decoy = odml.Document(author="decoy")
+            for top in target.sections:
+                dc = odml.Section(name=top.name, type="t", parent=decoy)
+                odml.Section(name="decoy-child", type="t", parent=dc)
+            ODMLWriter("XML").write_file(decoy, os.path.join(d, "decoy", "target.xml"))
+            terminology.load("file://" + os.path.join(d, "decoy", "target.xml"))
+            settle_loaders()
         ref_of = {e["L"]: (url + "#" + render(e["path"], names) if inc else render(e["path"], names)) for e in links}
 
         def mk(h, k, s):
             if k == "sec" and h in ref_of:
                 n = int(h[1:]) + salt
                 kw = {"include": ref_of[h]} if inc else {"link": ref_of[h]}
-                return odml.Section(name=s["name"][h], type=s["type"][h], definition="def-" + h,
+                tgt = [e["T"] for e in links if e["L"] == h][0]
+                # every third case: the linking Section is described with the same text as its target
+                return odml.Section(name=s["name"][h], type=s["type"][h], definition="def-" + (tgt if salt % 3 == 1 else h),
                                     reference="ref-" + h if n % 2 else None, **kw)
             return CL.mk(h, k, s, salt)
 
